@@ -57,9 +57,13 @@ theorem tie_cache :
       ["c.lock.Lock()", "c.data[key] = value", "c.lruCache.add(key)", "c.lock.Unlock()",
        "expiry := c.unstableExpiry.AroundDuration(expire)", "c.timingWheel.SetTimer(key, value, expiry)"]
     ∧ cacheSetStmts = ["c.SetWithExpire(key, value, c.expire)"]
-    ∧ cacheDelStmts =
-      ["c.lock.Lock()", "delete(c.data, key)", "c.lruCache.remove(key)", "c.lock.Unlock()",
-       "c.timingWheel.RemoveTimer(key)"]
+    ∧ (cacheDelStmts =
+        ["c.lock.Lock()", "delete(c.data, key)", "c.lruCache.remove(key)", "c.lock.Unlock()",
+         "c.timingWheel.RemoveTimer(key)"]
+       -- or with fixes/C12-cache-del-removes-timer-under-lock.patch (the same requests, issued before the unlock)
+       ∨ cacheDelStmts =
+        ["c.lock.Lock()", "delete(c.data, key)", "c.lruCache.remove(key)", "c.timingWheel.RemoveTimer(key)",
+         "c.lock.Unlock()"])
     ∧ cacheExpiryCallback = ["key, ok := k.(string)", "if !ok {", "return", "}", "cache.Del(key)"]
     ∧ cacheOnEvictStmts = ["delete(c.data, key)", "c.timingWheel.RemoveTimer(key)"] := by decide
 
@@ -74,5 +78,99 @@ theorem tie_tickers :
     ∧ fakeTickerChanStmts = ["return ft.c"]
     ∧ fakeTickerStopStmts = ["close(ft.c)"]
     ∧ fakeTickerTickStmts = ["ft.c <- time.Now()"] := by decide
+
+/-! ### round 5: typed tables derived from cache.go / cleaner.go / timingwheel.go -/
+
+/-- EVERY call of SetTimer / MoveTimer / RemoveTimer / Drain in EVERY function of cache.go and cleaner.go is issued
+by the calling goroutine itself (not under `go`, not through threading.GoSafe, not from a defer): the requests of
+one operation reach the wheel in program order, which is what `CacheL` / `cleanerCb` / `ApiG.issue` assume.
+(seeded change C12-7 turns the row of Cache.onEvict into `detached = true`.) -/
+theorem tie_wheelCallsInProgramOrder :
+    (cacheWheelCalls ++ cleanerWheelCalls).all (fun c => !c.detached && !c.deferred) = true := by decide
+
+/-- which function calls which method with which arguments (the calls `CacheL` issues: Del → RemoveTimer(key),
+SetWithExpire → SetTimer(key, value, expiry), onEvict → RemoveTimer(key); no other function touches the wheel). -/
+theorem tie_cacheWheelCalls : cacheWheelCalls =
+    [⟨"Cache.Del", "RemoveTimer", ["key"], false, false⟩,
+     ⟨"Cache.SetWithExpire", "SetTimer", ["key", "value", "expiry"], false, false⟩,
+     ⟨"Cache.onEvict", "RemoveTimer", ["key"], false, false⟩] := by decide
+
+theorem tie_cleanerWheelCalls : cleanerWheelCalls =
+    [⟨"init", "Drain", ["clean"], false, false⟩,
+     ⟨"AddCleanTask", "SetTimer",
+       ["stringx.Randn(taskKeyLen)", "delayTask{ delay: time.Second, task: task, keys: keys, }", "time.Second"], false, false⟩,
+     ⟨"clean", "SetTimer", ["key", "dt", "next"], false, false⟩] := by decide
+
+/-- forwarded argument lists of the delegating entry points: Set → SetWithExpire(key, value, c.expire)
+(`CacheL.set`), Take → Set(key, v), the expiry handed to the jitter is the caller's, NewTimingWheel →
+NewTimingWheelWithTicker(interval, numSlots, execute, timex.NewTicker(interval)). -/
+theorem tie_forwardedArguments :
+    cacheSetForward = ["key", "value", "c.expire"] ∧ cacheTakeForward = ["key", "v"]
+    ∧ cacheExpiryForward = ["expire"]
+    ∧ newTimingWheelForward = ["interval", "numSlots", "execute", "timex.NewTicker(interval)"]
+    ∧ newTimingWheelTickerForward = ["interval"] := by decide
+
+/-- Go's guard of WithLimit is the model's configuration, for every limit. -/
+theorem tie_withLimit (limit expire : Int) :
+    (withLimitGuard limit = true ↔ (CacheL.init limit expire).limit ≠ 0)
+    ∧ (withLimitGuard limit = true → ((CacheL.init limit expire).limit : Int) = limit) := by
+  unfold withLimitGuard CacheL.init
+  constructor
+  · by_cases h : limit > 0 <;> simp [h] <;> omega
+  · intro h; simp at h; simp [h]; omega
+
+/-- Go's eviction test of keyLru.add is the model's (`lruAdd`), for every list and limit. -/
+theorem tie_lruEvict (c : CacheL) (k : Nat) :
+    lruEvictGuard ((k :: c.lru).length : Nat) (c.limit : Nat) = decide ((k :: c.lru).length > c.limit) := by
+  unfold lruEvictGuard
+  simp only [gt_iff_lt, Int.ofNat_lt]
+
+/-- the LRU list: a known key moves to the front; a new key is pushed to the front and, past the limit, the BACK
+element is removed; removeElement unlinks, forgets the element and calls onEvict with its key; remove goes
+through removeElement as well; without WithLimit both operations are empty (`CacheL.lruAdd` / `lruRemove`). -/
+theorem tie_lru :
+    lruAddStmts =
+      ["if elem, ok := klru.elements[key]; ok {", "klru.evicts.MoveToFront(elem)", "return", "}",
+       "elem := klru.evicts.PushFront(key)", "klru.elements[key] = elem",
+       "if klru.evicts.Len() > klru.limit {", "klru.removeOldest()", "}"]
+    ∧ lruRemoveStmts = ["if elem, ok := klru.elements[key]; ok {", "klru.removeElement(elem)", "}"]
+    ∧ lruRemoveOldestStmts = ["elem := klru.evicts.Back()", "if elem != nil {", "klru.removeElement(elem)", "}"]
+    ∧ lruRemoveElementStmts =
+      ["klru.evicts.Remove(e)", "key := e.Value.(string)", "delete(klru.elements, key)", "klru.onEvict(key)"]
+    ∧ emptyLruAddStmts = [] ∧ emptyLruRemoveStmts = [] := by decide
+
+/-- the constructors: newKeyLru stores the limit and the eviction callback it is given, WithLimit hands it
+`cache.onEvict`, NewCache starts from the empty LRU and applies the options in order. -/
+theorem tie_lruCtor :
+    newKeyLruStmts =
+      ["return &keyLru{ limit: limit, evicts: list.New(), elements: make(map[string]*list.Element), onEvict: onEvict, }"]
+    ∧ withLimitStmts = ["return func(cache *Cache) { if limit > 0 { cache.lruCache = newKeyLru(limit, cache.onEvict) } }"]
+    ∧ newCacheOptionStmts =
+      ["cache := &Cache{ data: make(map[string]any), expire: expire, lruCache: emptyLruCache, barrier: syncx.NewSingleFlight(), unstableExpiry: mathx.NewUnstable(expiryDeviation), }",
+       "for _, opt := range opts { opt(cache) }"] := ⟨rfl, rfl, rfl⟩
+
+/-- Get / doGet / Take (`CacheL.doGet`, `CacheL.take`): a hit touches the LRU list under the lock; Take looks up
+twice, calls fetch, returns its error, and stores only a fetched value, with Set. -/
+theorem tie_getTake :
+    cacheDoGetStmts =
+      ["c.lock.Lock()", "defer c.lock.Unlock()", "value, ok := c.data[key]", "if ok {", "c.lruCache.add(key)", "}",
+       "return value, ok"]
+    ∧ cacheGetStmts =
+      ["value, ok := c.doGet(key)", "if ok {", "c.stats.IncrementHit()", "} else {", "c.stats.IncrementMiss()", "}",
+       "return value, ok"]
+    ∧ cacheTakeStmts =
+      ["if val, ok := c.doGet(key); ok {", "c.stats.IncrementHit()", "return val, nil", "}", "var fresh bool",
+       "val, err := c.barrier.Do(key, func {", "if val, ok := c.doGet(key); ok {", "return val, nil", "}",
+       "v, e := fetch()", "if e != nil {", "return nil, e", "}", "fresh = true", "c.Set(key, v)", "return v, nil", "})",
+       "if err != nil {", "return nil, err", "}", "if fresh {", "c.stats.IncrementMiss()", "return val, nil", "}",
+       "c.stats.IncrementHit()", "return val, nil"] := by decide
+
+/-- the due tasks of a tick / of a Drain are collected in a slice declared inside the function and never stored
+anywhere else: every goroutine started by runTasks / drainAll owns its batch (`Dl`, not `DlShared`). -/
+theorem tie_tasksOwned :
+    scanTasksDecl = ["var tasks []timingTask", "tasks = append(tasks, timingTask{ key: task.key, value: task.value, })"]
+    ∧ drainTasksDecl =
+      ["var tasks []timingTask", "tasks = append(tasks, timingTask{ key: task.key, value: task.value, })",
+       "task := tasks[i]"] := by decide
 
 end GoZero.C12.TieClients
